@@ -137,4 +137,20 @@ def render : List Str → Str
 
 def canon (ts : List Tok) : Option Str := if WF ts then some (render (canonToks ts false)) else none
 
+/-! ## what "the same expression up to letter case" means
+
+Identifiers and operators are compared up to ASCII case; the part of a `LicenseRef-` identifier after the
+prefix is significant.  (Operators are already case-folded by `classify`.) -/
+
+def foldWord (w : Str) : Str :=
+  if lowerStr (w.take 11) == sRefLower then sRefLower ++ w.drop 11 else lowerStr w
+
+def foldTok : Tok → Tok
+  | .word w => .word (foldWord w)
+  | t => t
+
+/-- the kind of a token, forgetting the identifier -/
+def shape : Tok → Nat
+  | .lp => 0 | .rp => 1 | .and => 2 | .or => 3 | .with => 4 | .word _ => 5
+
 end Spdx
